@@ -303,6 +303,7 @@ StepV(W, act, out) ==
     [] act.op = "tmut"   -> [W |-> TSet(W, out.ts[1]), v |-> NoV]
     [] act.op = "txo"    -> [W |-> TSet(W, out.ts[1]), v |-> NoV]
     [] act.op = "sadd"   -> [W |-> SAdd(W, act.a, act.b), v |-> NoV]
+    [] act.op = "sadds"  -> [W |-> SAdd(W, act.a, act.b), v |-> NoV]   \* add_test_case_chromosomes([t])
     [] act.op = "sdel"   -> [W |-> SDel(W, act.a, act.b), v |-> NoV]
     [] act.op = "sset"   -> [W |-> SSet(W, act.a, act.p, act.b), v |-> NoV]
     [] act.op = "sxo"    -> [W |-> SXover(W, act.a, act.b, act.p, act.q), v |-> NoV]
@@ -338,6 +339,7 @@ Enabled(W, act) ==
     [] act.op = "tmut"   -> TopT(W, act.a)
     [] act.op = "txo"    -> TopT(W, act.a) /\ TopT(W, act.b) /\ act.a # act.b
     [] act.op = "sadd"   -> LiveS(W, act.a) /\ TopT(W, act.b)
+    [] act.op = "sadds"  -> LiveS(W, act.a) /\ TopT(W, act.b)
     [] act.op = "sdel"   -> LiveS(W, act.a) /\ LiveT(W, act.b)
                             /\ (W.t[act.b].owner = 0 \/ W.t[act.b].owner = act.a)
     [] act.op = "sset"   -> LiveS(W, act.a) /\ TopT(W, act.b) /\ act.p \in DOMAIN W.s[act.a].mem
